@@ -192,7 +192,7 @@ long tree_fn(long node, long poison);
 
 // body shared by all backends; GL = guest long type, call = how the guest calls an entry
 template<typename GL, typename CallFn>
-static GL guest_tree_body(GL node, GL poison, const char* cur, CallFn call_entry)
+static GL guest_tree_body(GL node, GL poison, const char* cur, int lib, CallFn call_entry)
 {
   long long expect = 0;
   bool known = node >= 1 && node < (GL)nodes.size();
@@ -202,6 +202,9 @@ static GL guest_tree_body(GL node, GL poison, const char* cur, CallFn call_entry
   {
     tr::Ev e("guest_run");
     e.num("node", (long long)node).str("cur", cur).boolean("argok", known && (long long)poison == expect);
+    if (lib != 0) {
+      e.num("lib", lib);
+    }
     out.put(e);
   }
   if (!known) {
@@ -250,8 +253,11 @@ static GL guest_tree_body(GL node, GL poison, const char* cur, CallFn call_entry
 }
 
 #if defined(BK_VM)
+static thread_local int g_cur_lib = 0;
+template<int L>
 static int32_t g_tree(int32_t node, int32_t poison)
 {
+  g_cur_lib = L;
   Sbx* cur = Sbx::current_sandbox();
   std::string curname = "?";
   for (int i = 0; i < NSB; i++) {
@@ -259,16 +265,17 @@ static int32_t g_tree(int32_t node, int32_t poison)
       curname = SB_NAMES[i];
     }
   }
-  return guest_tree_body<int32_t>(node, poison, curname.c_str(), [](unsigned long long entry, int32_t* ret, int32_t arg) {
+  return guest_tree_body<int32_t>(node, poison, curname.c_str(), L, [](unsigned long long entry, int32_t* ret, int32_t arg) {
     return Sbx::call_indirect<int32_t, int32_t>(static_cast<uint32_t>(entry), ret, arg);
   });
 }
-static vm_library lib1 = { 1, { { "tree_fn", (void*)&g_tree } } };
+static vm_library lib1 = { 1, { { "tree_fn", (void*)&g_tree<1> } } };
+static vm_library lib2 = { 2, { { "other", (void*)&g_tree<1> }, { "tree_fn", (void*)&g_tree<2> } } };
 #elif defined(BK_NOOP)
 extern "C" long tree_fn(long node, long poison)
 {
   // the no-op backend has no "current sandbox" observable from guest code other than TLS
-  return guest_tree_body<long>(node, poison, nodes[node >= 1 && node < (long)nodes.size() ? node : 0].s.c_str(),
+  return guest_tree_body<long>(node, poison, nodes[node >= 1 && node < (long)nodes.size() ? node : 0].s.c_str(), 0,
                                [](unsigned long long entry, long* ret, long arg) {
                                  *ret = reinterpret_cast<long (*)(long)>(entry)(arg);
                                  return true;
@@ -276,9 +283,9 @@ extern "C" long tree_fn(long node, long poison)
 }
 #elif defined(BK_DYLIB)
 // the guest library (harness/guestlib.c) calls back into these through function pointers
-extern "C" long harness_tree_body(long node, long poison)
+extern "C" long harness_tree_body(long node, long poison, int libid)
 {
-  return guest_tree_body<long>(node, poison, nodes[node >= 1 && node < (long)nodes.size() ? node : 0].s.c_str(),
+  return guest_tree_body<long>(node, poison, nodes[node >= 1 && node < (long)nodes.size() ? node : 0].s.c_str(), libid,
                                [](unsigned long long entry, long* ret, long arg) {
                                  *ret = reinterpret_cast<long (*)(long)>(entry)(arg);
                                  return true;
@@ -383,7 +390,7 @@ int main(int argc, char** argv)
       for (int i = 0; i < NSB; i++) {
         sb[i] = std::make_unique<RS>();
 #if defined(BK_VM)
-        sb[i]->create_sandbox(&lib1);
+        sb[i]->create_sandbox(i == 0 ? &lib1 : &lib2);
 #elif defined(BK_DYLIB)
         sb[i]->create_sandbox(argv[3 + (i % 2)]);
 #else
@@ -395,6 +402,11 @@ int main(int argc, char** argv)
       }
       tr::Ev e("reset");
       e.raw("sandboxes", "[\"s1\",\"s2\"]").boolean("hooks", true).boolean("fits", LONG_FITS).str("backend", BACKEND);
+#if defined(BK_NOOP)
+      e.raw("libs", "{\"s1\":0,\"s2\":0}");
+#else
+      e.raw("libs", "{\"s1\":1,\"s2\":2}");
+#endif
 #if defined(TLS_EMBEDDER)
       e.str("tls", "embedder");
 #else
